@@ -6,6 +6,12 @@ def M(prop, id, file, old, new, expect=(), why=''):
     MUTATIONS.append({'prop': prop, 'id': id, 'file': file, 'old': old, 'new': new, 'expect': list(expect), 'why': why})
 
 
+def MP(prop, id, patch, expect=(), why=''):
+    """A mutation given as a patch (selftest/patches/): a behaviour-preserving refactoring plus the breaking edit, to test a rule on a
+    layout other than today's."""
+    MUTATIONS.append({'prop': prop, 'id': id, 'patch': patch, 'expect': list(expect), 'why': why})
+
+
 STM = 'mithril-stm/src/'
 COMMON = 'mithril-common/src/'
 
@@ -642,3 +648,21 @@ M('C20', 'settings-recorded-for-node-epoch', 'mithril-signer/src/runtime/state_m
   '.inform_epoch_settings(aggregator_signer_registration_epoch, mithril_network_configuration, current_signer,  next_signer)',
   '.inform_epoch_settings(epoch, mithril_network_configuration, current_signer,  next_signer)',
   ['inform_epoch_settings(epoch)'], 'epoch settings stored under the node epoch')
+
+MP('C04', 'as-str-table-duplicate', 'mut-c04-as-str-duplicate.diff', ['part_key:display-injective'],
+   'on the layout of rf3-c04-1 (the key text comes from a private `as_str` table used by Display and by the digest): two keys get the same literal')
+
+M('C07', 'kes-helper-ignores-announced-evolutions', COMMON + 'crypto_helper/cardano/key_certification.rs',
+  '.verify(message, &signature, opcert, kes_evolutions)', '.verify(message, &signature, opcert, KesEvolutions(0))',
+  ['register:kes-args:4'], 'the private KES helper tries evolution 0 whatever the signer announced')
+M('C07', 'kes-check-over-claimed-party-id', COMMON + 'crypto_helper/cardano/key_certification.rs',
+  '                    &parameters.verification_key_for_concatenation.to_bytes(),\n                    parameters\n                        .verification_key_signature_for_concatenation',
+  '                    parameters.party_id.clone().unwrap_or_default().as_bytes(),\n                    parameters\n                        .verification_key_signature_for_concatenation',
+  ['register:kes-args:1'], 'the KES signature is checked over the claimed party id instead of the verification key')
+MP('C17', 'zero-test-wrong-constant', 'mut-c17-zero-test-wrong-constant.diff', ['beacon:formula'],
+   'on the layout of rf3-c17-4 (the shared helper inlined, `if step == 0 { 1 } else { step }` instead of max): the test compares with 1, so a step of 0 reaches the division')
+
+for _p in ('C14', 'C15'):
+    M(_p, 'prune-threshold-next-epoch', 'mithril-aggregator/src/services/certifier/certifier_service.rs',
+      '            .clean_epoch(epoch)\n', '            .clean_epoch(epoch.next())\n', ['open_message:prune-threshold'],
+      'the clean-up run when an epoch is entered deletes below the NEXT epoch: the open messages of the epoch being entered go too')
